@@ -30,6 +30,8 @@ type Case struct {
 	Judge    bool   `json:"judge"`
 	JudgeRT  bool   `json:"judgert"`
 	PrefixOK bool   `json:"prefixok"`
+	// Sched, if present, is one more delivery schedule to try (cases made from a recorded run carry theirs).
+	Sched []int `json:"sched,omitempty"`
 }
 
 // Seen is one record as the AWK program saw it.
@@ -156,6 +158,13 @@ func (r *runner) run(data []byte, sched []int) *hx.RunResult {
 	return hx.RunProg(r.prog, nil, &interp.Config{Stdin: cr})
 }
 
+// GetlineProgram reads the same records with getline in BEGIN instead of the
+// main loop (the other way a program sees records).
+func GetlineProgram(rstext []byte) string {
+	return "BEGIN { RS = " + hx.AwkString(rstext) + "\n" +
+		`  while ((getline line) > 0) printf "%d:%d:%d:%s%d:%s\n", NR, FNR, length(line), line, length(RT), RT` + "\n}\n"
+}
+
 // Replay is the hx.Replayer for Gen_RecordReader exports.
 func Replay(raw json.RawMessage) hx.Outcome {
 	var c Case
@@ -276,9 +285,34 @@ func Replay(raw json.RawMessage) hx.Outcome {
 	}
 
 	// 1. every schedule of the model (all compositions), or the reduced set for long inputs
-	for _, sched := range Schedules(n, maxAll, h) {
+	scheds := Schedules(n, maxAll, h)
+	if len(c.Sched) > 0 {
+		scheds = append(scheds[:1:1], append([][]int{c.Sched}, scheds[1:]...)...)
+	}
+	for _, sched := range scheds {
 		if o := check(input, sched, 0, "delivered as"); o != nil {
 			return *o
+		}
+	}
+	// 1b. the same records reach a program that reads them with getline
+	if gsrc := GetlineProgram(c.RsText.Bytes()); n > 0 {
+		gprog, gerr := parser.ParseProgram([]byte(gsrc), nil)
+		if gerr != nil {
+			return hx.Outcome{Skipped: true, Note: "generated program rejected: " + gerr.Error()}
+		}
+		main := whole
+		for _, sched := range [][]int{{n}, ones(n)} {
+			res := hx.RunProg(gprog, nil, &interp.Config{Stdin: &ChunkReader{Data: input, Sched: sched}})
+			seen, ok := ParseOutput(res.Stdout)
+			same := res.Panic == nil && res.Err == nil && ok && len(seen) == len(main)
+			for i := 0; same && i < len(seen); i++ {
+				same = seen[i].NR == main[i].NR && seen[i].FNR == main[i].FNR && bytes.Equal(seen[i].Rec, main[i].Rec) && bytes.Equal(seen[i].RT, main[i].RT)
+			}
+			if !same {
+				return hx.Fail(fmt.Sprintf("C07/%s/getline-vs-mainloop/%s", c.Cls, schedClass(sched, n)),
+					fmt.Sprintf("a getline loop sees other records than the main loop; RS=%q input=%q schedule=%v (panic=%v err=%v)",
+						c.RsText.Bytes(), input, sched, res.Panic, res.Err), render(main), render(seen), gsrc)
+			}
 		}
 	}
 	// 2. the same input behind a long first record, so that the reader's buffer
